@@ -1,6 +1,7 @@
 \* C20 design check: the pipeline (with the repaired unsupported-encoding rule) satisfies C20 on every configuration.
 CONSTANTS
   UnsupportedRule = "pass"
+  CspRule = "policylist"
   LengthRule = "set"
   EmitCases = FALSE
 INIT Init
